@@ -1,0 +1,198 @@
+//go:build verif
+
+package sm2
+
+// Contracts checked by /verif/gvc (s-expression syntax, see /verif/DESIGN.md).
+// This file contains comments only.
+//
+// Abstract view.  A *big.Int denotes a mathematical integer (bigval).  The package-level curve object sm2P256 is
+// initialised once by P256Sm2() (sync.Once); sm2init states what initP256Sm2 establishes.
+
+//@ (defmacro cp () (field (global "sm2.sm2P256") CurveParams))
+//@ (defmacro factor () (global "sm2.sm2P256Factor"))
+//@ (defmacro sm2init () (and (cpinit (cp)) (not (isnil (field (global "sm2.sm2P256") RInverse)))
+//@                           (= (field (cp) BitSize) 256)
+//@                           (< (bigval (field (cp) N)) 115792089237316195423570985008687907853269984665640564039457584007913129639936)
+//@                           (< (bigval (field (cp) P)) 115792089237316195423570985008687907853269984665640564039457584007913129639936)
+//@                           (= (len (factor)) 9) (not (isnil (factor)))))
+
+// P256Sm2 runs initP256Sm2 under sync.Once and returns the package-level curve by value.  Trusted: sync.Once and
+// big.Int.SetString on the constant parameter strings (SetString returns nil only for malformed text).
+//@ (func P256Sm2 trusted
+//@   (ensures type (typeof result "sm2.sm2P256Curve"))
+//@   (ensures init (sm2init)))
+
+// ---- field arithmetic on 9-limb elements (limbs of 29 and 28 bits alternately) --------------------------------------
+// Representation invariant (as in the P-256 code this file was derived from): "loose" elements have even limbs
+// below 2^30 and odd limbs below 2^29 (what every operation accepts and returns); ReduceCarry takes "tight" limbs
+// (2^29 / 2^28) and a carry below 8 (its table has 8 rows).
+//@ (defmacro loose (p) (and (bvult (at p 0) #x40000000) (bvult (at p 1) #x20000000) (bvult (at p 2) #x40000000) (bvult (at p 3) #x20000000) (bvult (at p 4) #x40000000) (bvult (at p 5) #x20000000) (bvult (at p 6) #x40000000) (bvult (at p 7) #x20000000) (bvult (at p 8) #x40000000)))
+//@ (defmacro tight (p) (and (bvult (at p 0) #x20000000) (bvult (at p 1) #x10000000) (bvult (at p 2) #x20000000) (bvult (at p 3) #x10000000) (bvult (at p 4) #x20000000) (bvult (at p 5) #x10000000) (bvult (at p 6) #x20000000) (bvult (at p 7) #x10000000) (bvult (at p 8) #x20000000)))
+//@ (defmacro nn3 (a b c) (and (not (isnil a)) (not (isnil b)) (not (isnil c))))
+//@ (func sm2P256ReduceCarry
+//@   (requires nn (not (isnil a)))
+//@   (requires carry (bvult carry 8))
+//@   (ensures limbs (=> (old (tight a)) (loose a)))
+//@   (modifies (cells a 0 9)))
+//@ (func sm2P256Add
+//@   (requires nn (nn3 c a b))
+//@   (ensures limbs (=> (old (and (loose a) (loose b))) (loose c)))
+//@   (modifies (cells c 0 9)))
+//@ (func sm2P256Sub
+//@   (requires nn (nn3 c a b))
+//@   (ensures limbs (=> (old (and (loose a) (loose b))) (loose c)))
+//@   (modifies (cells c 0 9)))
+//@ (defmacro nn2 (a b) (and (not (isnil a)) (not (isnil b))))
+//@ (func sm2P256ReduceDegree
+//@   (requires nn (nn2 a b))
+//@   (ensures limbs (loose a))
+//@   (modifies (cells a 0 9)))
+//@ (func sm2P256Mul
+//@   (requires nn (nn3 c a b))
+//@   (ensures limbs (loose c))
+//@   (modifies (cells c 0 9)))
+//@ (func sm2P256Square
+//@   (requires nn (nn2 b a))
+//@   (ensures limbs (loose b))
+//@   (modifies (cells b 0 9)))
+//@ (func sm2P256Dup
+//@   (requires nn (nn2 b a))
+//@   (ensures copy (=> (old (loose a)) (loose b)))
+//@   (modifies (cells b 0 9)))
+//@ (func sm2P256CopyConditional
+//@   (requires nn (nn2 out in))
+//@   (ensures limbs (=> (old (and (loose out) (loose in))) (loose out)))
+//@   (modifies (cells out 0 9)))
+//@ (func sm2P256GetBit
+//@   (requires nn (not (isnil scalar)))
+//@   (requires idx (bvult bit 256))
+//@   (ensures bit (bvule result 1)))
+//@ (func nonZeroToAllOnes inline)
+
+// ---- point arithmetic (Jacobian coordinates): safety and frames (no run-time panic depends on limb values: every table index is a shifted or masked word); outputs may alias inputs -----------------
+//@ (func sm2P256PointAddMixed
+//@   (requires init (sm2init))
+//@   (requires nn (and (not (isnil xOut)) (not (isnil yOut)) (not (isnil zOut)) (not (isnil x1)) (not (isnil y1)) (not (isnil z1)) (not (isnil x2)) (not (isnil y2))))
+//@   (modifies (cells xOut 0 9) (cells yOut 0 9) (cells zOut 0 9)))
+//@ (func sm2P256PointDouble
+//@   (requires init (sm2init))
+//@   (requires nn (and (not (isnil x3)) (not (isnil y3)) (not (isnil z3)) (not (isnil x)) (not (isnil y)) (not (isnil z))))
+//@   (modifies (cells x3 0 9) (cells y3 0 9) (cells z3 0 9)))
+//@ (func sm2P256PointAdd
+//@   (requires init (sm2init))
+//@   (requires nn (and (not (isnil x3)) (not (isnil y3)) (not (isnil z3)) (not (isnil x1)) (not (isnil y1)) (not (isnil z1)) (not (isnil x2)) (not (isnil y2)) (not (isnil z2))))
+//@   (modifies (cells x3 0 9) (cells y3 0 9) (cells z3 0 9)))
+// PointSub negates y2 in place before adding
+//@ (func sm2P256PointSub
+//@   (requires init (sm2init))
+//@   (requires nn (and (not (isnil x3)) (not (isnil y3)) (not (isnil z3)) (not (isnil x1)) (not (isnil y1)) (not (isnil z1)) (not (isnil x2)) (not (isnil y2)) (not (isnil z2))))
+//@   (modifies (object x3) (object y3) (object z3) (object y2)))
+
+// ---- conversions between *big.Int and limb form ----------------------------------------------------------------------
+//@ (func sm2P256ToBig
+//@   (requires init (sm2init))
+//@   (requires nn (not (isnil X)))
+//@   (fresh result)
+//@   (ensures nonnil (not (isnil result)))
+//@   (ensures range (and (<= 0 (bigval result)) (< (bigval result) (bigval (field (cp) P))))))
+//@ (func sm2P256FromBig
+//@   (requires init (sm2init))
+//@   (requires nn (and (not (isnil X)) (not (isnil a))))
+//@   (ensures limbs (tight X))
+//@   (modifies (cells X 0 9)))
+//@ (func sm2P256Scalar
+//@   (requires init (sm2init))
+//@   (requires nn (not (isnil b)))
+//@   (requires idx (and (bvsge a 0) (bvsle a 8)))
+//@   (ensures limbs (loose b))
+//@   (modifies (cells b 0 9)))
+
+// ---- scalars and table selection ---------------------------------------------------------------------------------------
+//@ (func sm2P256SelectAffinePoint
+//@   (requires nn (nn2 xOut yOut))
+//@   (requires table (bvsge (len table) 270))
+//@   (modifies (cells xOut 0 9) (cells yOut 0 9)))
+//@ (func sm2P256SelectJacobianPoint
+//@   (requires nn (and (not (isnil xOut)) (not (isnil yOut)) (not (isnil zOut)) (not (isnil table))))
+//@   (modifies (cells xOut 0 9) (cells yOut 0 9) (cells zOut 0 9)))
+//@ (func sm2P256GetScalar autoloops
+//@   (uses "big" "big:axioms")
+//@   (requires init (sm2init))
+//@   (requires nn (not (isnil b)))
+//@   (modifies (object b)))
+//@ (func boolToUint inline)
+//@ (func abs (ensures bound (=> (and (bvsge a (bv -8 8)) (bvsle a (bv 8 8))) (bvule result 8))))
+//@ (func WNafReversed autoloops
+//@   (fresh result)
+//@   (ensures len (= (len result) (len wnaf))))
+// wNAF recoding: length + BitLen(k) is conserved (each digit consumes the bits shifted out), so wnaf[length] stays
+// inside the BitLen(k0)+1 entries; termination by the measure 5*BitLen(k) - pos.
+//@ (defmacro blk () (big.bitlen (bigval k)))
+//@ (func sm2GenrateWNaf
+//@   (uses "big" "big:axioms")
+//@   (requires init (sm2init))
+//@   (fresh result)
+//@   (loop 1
+//@     (invariant nat (>= (bigval k) 0))
+//@     (invariant range (and (bvsle 0 length) (bvsle 0 pos)))
+//@     (invariant shape (and (= (len wnaf) (cap wnaf)) (bvsge (len wnaf) 1) (fresh-obj wnaf)))
+//@     (invariant conserved (= (bvadd length (blk)) (bvsub (len wnaf) 1)))
+//@     (decreases (bvsub (bvmul 5 (blk)) pos))))
+//@ (func sm2P256ScalarBaseMult
+//@   (requires init (sm2init))
+//@   (requires nn (and (not (isnil xOut)) (not (isnil yOut)) (not (isnil zOut)) (not (isnil scalar))))
+//@   (modifies (object xOut) (object yOut) (object zOut)))
+//@ (func sm2P256ScalarMult autoloops
+//@   (requires init (sm2init))
+//@   (requires nn (and (not (isnil xOut)) (not (isnil yOut)) (not (isnil zOut)) (not (isnil x)) (not (isnil y))))
+//@   (modifies (object xOut) (object yOut) (object zOut)))
+//@ (func sm2P256PointToAffine
+//@   (requires init (sm2init))
+//@   (requires nn (and (not (isnil xOut)) (not (isnil yOut)) (not (isnil x)) (not (isnil y)) (not (isnil z))))
+//@   (modifies (cells xOut 0 9) (cells yOut 0 9)))
+//@ (func sm2P256ToAffine
+//@   (requires init (sm2init))
+//@   (requires nn (and (not (isnil x)) (not (isnil y)) (not (isnil z))))
+//@   (fresh xOut)
+//@   (fresh yOut)
+//@   (ensures nonnil (and (not (isnil xOut)) (not (isnil yOut))))
+//@   (ensures range (and (<= 0 (bigval xOut)) (< (bigval xOut) (bigval (field (cp) P)))
+//@                       (<= 0 (bigval yOut)) (< (bigval yOut) (bigval (field (cp) P))))))
+//@ (func zForAffine
+//@   (requires nn (nn2 x y))
+//@   (fresh result)
+//@   (ensures nonnil (not (isnil result))))
+
+// ---- the elliptic.Curve methods: for every coordinate pair / scalar byte string: no panic, fresh results in [0,p) --------
+//@ (defmacro inrange (v) (and (not (isnil v)) (<= 0 (bigval v)) (< (bigval v) (bigval (field (cp) P)))))
+//@ (func "(sm2P256Curve).Params"
+//@   (requires init (sm2init))
+//@   (ensures init (cpinit result)))
+//@ (func "(sm2P256Curve).IsOnCurve"
+//@   (requires init (sm2init))
+//@   (requires nn (nn2 X Y)))
+//@ (func "(sm2P256Curve).Add"
+//@   (requires init (sm2init))
+//@   (requires nn (and (not (isnil x1)) (not (isnil y1)) (not (isnil x2)) (not (isnil y2))))
+//@   (fresh result.0)
+//@   (fresh result.1)
+//@   (ensures range (and (inrange result.0) (inrange result.1))))
+//@ (func "(sm2P256Curve).Double"
+//@   (requires init (sm2init))
+//@   (requires nn (nn2 x1 y1))
+//@   (fresh result.0)
+//@   (fresh result.1)
+//@   (ensures range (and (inrange result.0) (inrange result.1))))
+//@ (func "(sm2P256Curve).ScalarMult"
+//@   (uses "big" "big:axioms")
+//@   (requires init (sm2init))
+//@   (requires nn (nn2 x1 y1))
+//@   (fresh result.0)
+//@   (fresh result.1)
+//@   (ensures range (and (inrange result.0) (inrange result.1))))
+//@ (func "(sm2P256Curve).ScalarBaseMult"
+//@   (uses "big" "big:axioms")
+//@   (requires init (sm2init))
+//@   (fresh result.0)
+//@   (fresh result.1)
+//@   (ensures range (and (inrange result.0) (inrange result.1))))
